@@ -217,7 +217,7 @@ let run_lsim (dump : Stdlib.String.t list) (hist : Stdlib.String.t) (out : Buffe
     | Model_fuel -> Buffer.add_string out (Printf.sprintf "PANIC tick=%d OUT-OF-FUEL\n" !tick))
     end
 
-let lsim_main (path : Stdlib.String.t) =
+let sim_main (runner : Stdlib.String.t list -> Stdlib.String.t -> Buffer.t -> unit) (path : Stdlib.String.t) =
   let ic = open_in path in
   let out = Buffer.create 65536 in
   let dump = ref [] and in_dump = ref false and hist = ref "" in
@@ -234,7 +234,7 @@ let lsim_main (path : Stdlib.String.t) =
       else if line = "H" then hist := ""
       else if line = "TRACE-BEGIN" then begin
         Buffer.add_string out "TRACE-BEGIN\n";
-        (try run_lsim (List.rev !dump) !hist out
+        (try runner (List.rev !dump) !hist out
          with Failure s -> Buffer.add_string out ("MODEL-ERROR " ^ s ^ "\n")
             | Invalid_argument s -> Buffer.add_string out ("MODEL-ERROR " ^ s ^ "\n")
             | Stack_overflow -> Buffer.add_string out "MODEL-ERROR stack overflow\n");
@@ -248,6 +248,164 @@ let lsim_main (path : Stdlib.String.t) =
   close_in ic;
   print_string (Buffer.contents out)
 
+
+
+(* ---------- kanata-level simulation ---------- *)
+let read_custom t : custom_action =
+  match next t with
+  | "uni" -> CaUnicode (next_n t)
+  | "mo" -> CaMouse (next_n t)
+  | "mt" -> CaMouseTap (next_n t)
+  | "fk" -> let x = next_n t in let y = next_n t in let o = next_n t in CaFakeKey (x, y, o)
+  | "fkr" -> let x = next_n t in let y = next_n t in let o = next_n t in CaFakeKeyOnRelease (x, y, o)
+  | "fki" -> let x = next_n t in let y = next_n t in let o = next_n t in let i = next_n t in CaFakeKeyOnIdle (x, y, o, i)
+  | "fkh" -> let x = next_n t in let y = next_n t in let d = next_n t in CaFakeKeyHoldFor (x, y, d)
+  | "mw" -> let d = next_n t in let i = next_n t in let ds = next_n t in CaMWheel (d, i, ds)
+  | "mwn" -> CaMWheelNotch (next_n t)
+  | "mm" -> let d = next_n t in let i = next_n t in CaMoveMouse (d, i)
+  | "mma" -> let d = next_n t in let i = next_n t in CaMoveMouseAccel (d, i)
+  | "mms" -> CaMoveMouseSpeed (next_n t)
+  | "sc" -> CaSequenceCancel
+  | "sl" -> let tm = next_n t in let m = next_n t in CaSequenceLeader (tm, m)
+  | "sn" -> CaSequenceNoerase (next_n t)
+  | "lr" -> CaLiveReload
+  | "rp" -> CaRepeat
+  | "cmr" -> CaCancelMacroOnRelease
+  | "cmp" -> CaCancelMacroOnNextPress (next_n t)
+  | "dr" -> CaDynRecord (next_n t)
+  | "ds" -> CaDynRecordStop (next_n t)
+  | "dp" -> CaDynPlay (next_n t)
+  | "ac" -> CaSendArbitraryCode (next_n t)
+  | "cw" ->
+    let n = next_int t in let caps = repeat n (fun () -> next_n t) in
+    let n2 = next_int t in let non = repeat n2 (fun () -> next_n t) in
+    let tm = next_n t in let tg = next_int t = 1 in
+    CaCapsWord (caps, non, tm, tg)
+  | "um" -> let n = next_int t in let ks = repeat n (fun () -> next_n t) in let m = next_n t in CaUnmodded (ks, m)
+  | "us" -> let n = next_int t in CaUnshifted (repeat n (fun () -> next_n t))
+  | "rro" -> CaReverseReleaseOrder
+  | "op" -> CaOpaque
+  | s -> failwith ("bad custom action token " ^ s)
+
+let fmt_ev (e : os_ev) : Stdlib.String.t =
+  let i = int_of_n in
+  match e with
+  | KDown k -> Printf.sprintf "d%d" (i k)
+  | KUp k -> Printf.sprintf "u%d" (i k)
+  | KRepeat k -> Printf.sprintf "d%d" (i k)
+  | BDown b -> Printf.sprintf "bd%d" (i b)
+  | BUp b -> Printf.sprintf "bu%d" (i b)
+  | Scroll (d, ds) -> Printf.sprintf "sc%d,%d" (i d) (i ds)
+  | MMove d -> Printf.sprintf "mv%d" (i d)
+  | Unicode c -> Printf.sprintf "U%d" (i c)
+  | Code (c, p) -> Printf.sprintf "C%d,%s" (i c) (if p then "p" else "r")
+
+let starts_with (p : Stdlib.String.t) (s : Stdlib.String.t) =
+  String.length s >= String.length p && String.sub s 0 (String.length p) = p
+
+let run_ksim (dump : Stdlib.String.t list) (hist : Stdlib.String.t) (out : Buffer.t) =
+  let hdr = List.find (starts_with "LCFG") dump in
+  let t = mk_toks hdr in
+  ignore (next t);
+  let trans_v2 = next_int t = 1 in
+  let delegate = next_int t = 1 in
+  let quick = next_int t = 1 in
+  let pause = next_n t in
+  let nlayers = next_int t in
+  let chv2 = next_int t = 1 in
+  if chv2 then Buffer.add_string out "UNSUPPORTED chords_v2\n" else begin
+  let rows = List.map read_row (List.filter (starts_with "ROW") dump) in
+  let src, rest = (match rows with s :: r -> s, r | [] -> failwith "no src row") in
+  let rec pair = function a :: b :: r -> (a, b) :: pair r | [] -> [] | _ -> failwith "odd rows" in
+  let layers = pair rest in
+  if List.length layers <> nlayers then failwith "layer count";
+  let lcfg = { layers = layers; src_keys = src; trans_v2 = trans_v2; delegate_first = delegate; quick_tap_hold = quick } in
+  let kt = mk_toks (List.find (starts_with "KCFG") dump) in
+  ignore (next kt);
+  let ov_rel = next_int kt = 1 in
+  let seq_always = next_int kt = 1 in
+  let seq_mode = next_n kt in
+  let seq_timeout = next_n kt in
+  let seq_bt = next_int kt = 1 in
+  let dyn_max = next_n kt in
+  let dyn_rec = next_int kt = 1 in
+  let smkt = next_n kt in
+  let mm_smooth = next_int kt = 1 in
+  let keyouts = List.map (fun line ->
+    let t = mk_toks line in ignore (next t); ignore (next t);
+    let n = next_int t in
+    repeat n (fun () -> let k = next_n t in let m = next_int t in let outs = repeat m (fun () -> next_n t) in (k, outs)))
+    (List.filter (starts_with "KEYOUT") dump) in
+  let ot = mk_toks (List.find (starts_with "OVERRIDES") dump) in
+  ignore (next ot);
+  let novs = next_int ot in
+  let ovs = repeat novs (fun () ->
+    let inm = next_n ot in let onm = next_n ot in
+    let ni = next_int ot in let im = repeat ni (fun () -> next_n ot) in
+    let no = next_int ot in let om = repeat no (fun () -> next_n ot) in
+    { ov_in_nm = inm; ov_out_nm = onm; ov_in_mods = im; ov_out_mods = om }) in
+  let st = mk_toks (List.find (starts_with "SEQS") dump) in
+  ignore (next st);
+  let nseq = next_int st in
+  let seqs = repeat nseq (fun () ->
+    let n = next_int st in let key = repeat n (fun () -> next_n st) in
+    let x = next_n st in let y = next_n st in (key, (x, y))) in
+  let customs = List.map (fun line ->
+    let t = mk_toks line in ignore (next t); ignore (next t);
+    let n = next_int t in repeat n (fun () -> read_custom t)) (List.filter (starts_with "CU ") dump) in
+  let cfg = { kc_layout = lcfg; kc_customs = customs; kc_key_outputs = keyouts; kc_overrides = ovs;
+              kc_override_release_on_activation = ov_rel; kc_sequences = seqs; kc_seq_always_on = seq_always;
+              kc_seq_input_mode = seq_mode; kc_seq_timeout = seq_timeout; kc_seq_backtrack_modcancel = seq_bt;
+              kc_dyn_max_presses = dyn_max; kc_dyn_replay_recorded = dyn_rec; kc_switch_max_key_timing = smkt;
+              kc_mm_smooth_diagonals = mm_smooth; kc_ignore_min = n_of_int 676; kc_ignore_max = n_of_int 685 } in
+  let k = ref (k_init (init_layout pause)) in
+  let tick = ref 0 in
+  let pending = ref [] in
+  (try
+    List.iter (fun tok ->
+      if tok <> "" then begin
+        let kind = tok.[0] and rest = String.sub tok 1 (String.length tok - 1) in
+        match kind with
+        | 'd' | 'u' | 'r' | 'T' ->
+          let code = n_of_int (int_of_string rest) in
+          let ev = (match kind with 'd' -> IPress code | 'u' -> IRelease code | 'r' -> IRepeat code | _ -> ITap code) in
+          let (k', evs) = unwrap (k_input cfg !k ev) in
+          k := k'; pending := !pending @ List.map fmt_ev evs
+        | 'v' ->
+          (match String.split_on_char ',' rest with
+           | [op; x; y] ->
+             let opn = (match op with "p" -> 0 | "r" -> 1 | "t" -> 2 | _ -> 3) in
+             let l' = unwrap (fakekey_action cfg (!k).k_layout (n_of_int opn) (n_of_int (int_of_string x), n_of_int (int_of_string y))) in
+             k := set_k_layout l' !k
+           | _ -> failwith "bad v token")
+        | 'q' ->
+          let idle = k_is_idle !k in
+          let (k', block) = k_can_block cfg !k (n_of_int 1) in
+          k := k';
+          Buffer.add_string out (Printf.sprintf "Q@%d idle=%d block=%d\n" !tick (if idle then 1 else 0) (if block then 1 else 0))
+        | 't' ->
+          for _ = 1 to int_of_string rest do
+            let (k', evs) = unwrap (k_tick cfg !k) in
+            k := k'; incr tick;
+            pending := !pending @ List.map fmt_ev evs;
+            if !pending <> [] then begin
+              Buffer.add_string out (Printf.sprintf "@%d %s\n" !tick (String.concat " " !pending));
+              pending := []
+            end
+          done
+        | _ -> failwith ("bad history token " ^ tok)
+      end) (String.split_on_char ' ' hist);
+    if !pending <> [] then Buffer.add_string out (Printf.sprintf "@%d+ %s\n" !tick (String.concat " " !pending));
+    let kv = !k in
+    let sc = (match kv.k_scroll with Some _ -> 1 | None -> 0) + (match kv.k_hscroll with Some _ -> 1 | None -> 0) in
+    let mv = (match kv.k_mmv with Some _ -> 1 | None -> 0) + (match kv.k_mmh with Some _ -> 1 | None -> 0) in
+    Buffer.add_string out (Printf.sprintf "END tick=%d down=[%s] nstates=%d layer=%d idle=%d scroll=%d move=%d\n"
+      !tick (String.concat " " (List.map (fun x -> string_of_int (int_of_n x)) kv.k_prev_keys))
+      (List.length kv.k_layout.states) (int_of_n (current_layer kv.k_layout)) (if k_is_idle kv then 1 else 0) sc mv)
+  with
+  | Model_panic s -> Buffer.add_string out (Printf.sprintf "PANIC tick=%d %s\n" !tick s)
+  | Model_fuel -> Buffer.add_string out (Printf.sprintf "PANIC tick=%d OUT-OF-FUEL\n" !tick))
+  end
 
 (* ---------- C10: switch compile + evaluate ---------- *)
 let rec read_bexpr t : bexpr =
@@ -363,7 +521,8 @@ let keys_main () =
 
 let () =
   match Array.to_list Sys.argv with
-  | _ :: "lsim" :: path :: _ -> lsim_main path
+  | _ :: "lsim" :: path :: _ -> sim_main run_lsim path
+  | _ :: "ksim" :: path :: _ -> sim_main run_ksim path
   | _ :: "keys" :: _ -> keys_main ()
   | _ :: "swev" :: path :: _ -> swev_main path
   | _ -> prerr_endline "usage: driver <lsim FILE|keys>"; exit 2
